@@ -158,11 +158,14 @@ class Evaluator:
             if not ch:
                 if name in self.env:
                     return self.env[name]
-                if name in ("f_sha3_empty",):
+                if name in ("f_sha3_empty", "f_sha3_0"):
                     return int.from_bytes(keccak(b""), "big")
                 if z3.is_array(t) and (name == "balance_00" or (name.startswith("storage_") and name.endswith("_00"))):
                     # halmos' names for the initially empty (all-zero) storage / balance arrays
                     return ({}, 0)
+                if z3.is_bv(t) and name.startswith("storage_") and name.endswith("_00"):
+                    # initial word of a scalar slot of a symbolic-storage account the input says nothing about: 0
+                    return 0
                 raise Unknown(name)
             args = [self.ev(c) for c in ch]
             n = t.size() if z3.is_bv(t) else 0
